@@ -34,7 +34,8 @@ CONSTANTS Clients,     \* client ids 1..N
           MaxSends,    \* requests created in total
           MaxServes,   \* how often one request may reach the server (2 = duplication)
           MaxApplies,  \* how often one response may reach the client
-          Faults       \* TRUE: responses may be applied late / out of order / twice; FALSE: FIFO exchange
+          Faults,      \* TRUE: responses may be applied late / out of order / twice; FALSE: FIFO exchange
+          KeepHist     \* TRUE: the behaviour is recorded in hist (exported for the replay); FALSE for trace validation
 
 VARIABLES cl,      \* cl[c] = [state, cps, cpc, seq, applied, duid, errs]
           dt,      \* server: [exists, duid, end, scp]   scp[c] = [s, c] or <<>> (not subscribed)
@@ -58,7 +59,7 @@ Init == /\ cl = [c \in Clients |-> [state |-> "closed", cps |-> 0, cpc |-> 0, se
         /\ reqs = {} /\ resps = {}
         /\ nsend = 0 /\ nserve = [i \in {} |-> 0] /\ napply = [i \in {} |-> 0]
         /\ act = [name |-> "init"] /\ hist = <<>>
-Record(a) == act' = a /\ hist' = Append(hist, a)
+Record(a) == act' = a /\ hist' = IF KeepHist THEN Append(hist, a) ELSE hist
 
 \* ---- client ----
 \* creating modes emit the creation (snapshot) operation at once: sequence number 1
